@@ -334,6 +334,11 @@ pub struct Weights {
     pub foreign: bool,
     /// emphasis: true = C06 style (more enters / events / traces), false = C05 style
     pub c06: bool,
+    /// with `foreign`: two registries used on the same threads, but every operation touches
+    /// only handles / guards / traces of the registry that is the thread's default at that
+    /// moment, and what a `with default {..}` block entered is exited before it ends - so no
+    /// step ever closes a span through another collector (nothing of finding F2 is involved)
+    pub own_only: bool,
 }
 
 pub struct World {
@@ -357,6 +362,8 @@ pub struct World {
     nthreads: usize,
     /// (op id, parent serial) of the explicit-parent event being judged
     xparent_of_op: Option<(u64, u64)>,
+    /// own_only: (GUARDS.len(), RAW.len()) at the start of every open `with default` block
+    block_base: Vec<(usize, usize)>,
 }
 
 impl World {
@@ -564,14 +571,21 @@ impl World {
 
     pub fn step(&mut self, depth: usize) {
         let t = TID.with(|t| t.get());
-        let live = self.live_handles();
-        let has = !live.is_empty();
-        let nguards = GUARDS.with(|g| g.borrow().len());
-        let ntr = self.traces.iter().filter(|x| x.is_some()).count();
         let dflt = cur_default();
+        let own = self.w.own_only;
+        let mine = |w: &World, serial: Option<u64>| -> bool { !own || serial.map(|s| Some(w.model.spans[&s].stack) == dflt).unwrap_or(true) };
+        let live: Vec<usize> = self.live_handles().into_iter().filter(|&i| mine(self, self.handles[i].as_ref().unwrap().serial)).collect();
+        let has = !live.is_empty();
+        // (own_only: only guards / collector-API enters made inside the innermost open block)
+        let (gbase, rbase) = if own { self.block_base.last().copied().unwrap_or((0, 0)) } else { (0, 0) };
+        let guard_idx: Vec<usize> = GUARDS.with(|g| g.borrow().iter().enumerate().filter(|(i, x)| *i >= gbase && mine(self, x.1)).map(|(i, _)| i).collect());
+        let nguards = guard_idx.len();
+        let trace_idx: Vec<usize> = (0..self.traces.len()).filter(|&i| self.traces[i].as_ref().map(|x| mine(self, x.1)).unwrap_or(false)).collect();
+        let ntr = trace_idx.len();
+        let raw_idx: Vec<usize> = RAW.with(|r| r.borrow().iter().enumerate().filter(|(i, x)| *i >= rbase && mine(self, Some(x.2))).map(|(i, _)| i).collect());
         let deep = depth >= 3;
         let c6 = self.w.c06;
-        let nraw = RAW.with(|r| r.borrow().len());
+        let nraw = raw_idx.len();
         let w: [u32; 17] = [
             6,                                             // 0 new contextual (macro)
             if self.metas.is_empty() { 0 } else { 4 },     // 1 new root / explicit parent
@@ -589,7 +603,7 @@ impl World {
             if has { 1 } else { 0 },                       // 13 re-enter same span (duplicate) scoped
             if has && nraw < 4 { 3 } else { 0 },           // 14 enter through the collector API (owns no handle)
             if nraw > 0 { 4 } else { 0 },                  // 15 exit through the collector API
-            if live.len() >= 2 && !self.w.foreign { 2 } else { 0 }, // 16 move a handle into another span's extensions
+            if live.len() >= 2 && (!self.w.foreign || own) { 2 } else { 0 }, // 16 move a handle into another span's extensions
         ];
         let op = self.rng.weighted(&w);
         match op {
@@ -692,7 +706,7 @@ impl World {
                 GUARDS.with(|gs| gs.borrow_mut().push((g, serial)));
             }
             5 | 6 => {
-                let k = self.rng.usize(nguards);
+                let k = *self.rng.pick(&guard_idx);
                 let (g, serial) = GUARDS.with(|gs| gs.borrow_mut().remove(k));
                 self.sig(if op == 5 { "guard_exit" } else { "guard_drop" }, serial, depth);
                 if let Some(s) = serial {
@@ -864,8 +878,7 @@ impl World {
                 self.traces.push(Some((tr, got)));
             }
             11 => {
-                let idxs: Vec<usize> = (0..self.traces.len()).filter(|&i| self.traces[i].is_some()).collect();
-                let k = *self.rng.pick(&idxs);
+                let k = *self.rng.pick(&trace_idx);
                 let drop_it = self.rng.chance(1, 3);
                 let (tr, s) = self.traces[k].take().unwrap();
                 self.trace.push(format!("[w{t}] {}(tr{k}) [leaf serial {s:?}]", if drop_it { "drop" } else { "check" }));
@@ -903,8 +916,10 @@ impl World {
                 }
             }
             12 => {
-                let k = self.rng.usize(3);
-                let n = 1 + self.rng.usize(4);
+                let k = if own { 1 - dflt.unwrap_or(1) } else { self.rng.usize(3) };
+                let n = 1 + self.rng.usize(if own { 8 } else { 4 });
+                let (g0, r0) = (GUARDS.with(|g| g.borrow().len()), RAW.with(|r| r.borrow().len()));
+                self.block_base.push((g0, r0));
                 self.trace.push(format!("[w{t}] with default {} {{", if k < 2 { format!("stack {k}") } else { "none".into() }));
                 let g = if k < 2 { dispatch::set_default(&self.disp[k]) } else { dispatch::set_default(&Dispatch::none()) };
                 DEFAULTS.with(|d| d.borrow_mut().push((g, if k < 2 { Some(k) } else { None })));
@@ -912,6 +927,41 @@ impl World {
                     if !self.errors.is_empty() { break; }
                     self.step(depth + 1);
                 }
+                if own && self.errors.is_empty() {
+                    // what the block entered is exited before the default changes back
+                    while RAW.with(|r| r.borrow().len()) > r0 {
+                        let (id, d, serial) = RAW.with(|r| r.borrow_mut().pop()).unwrap();
+                        self.trace.push(format!("[w{t}] dispatch.exit(raw) [serial {serial}] (end of block)"));
+                        let m = self.model.spans[&serial].clone();
+                        let last = m.handles == 0 && m.entered == 1 && m.children == 0
+                            && self.model.tstack.get(&(m.stack, t)).map(|v| v.iter().filter(|x| **x == serial).count()).unwrap_or(0) == 1;
+                        d.exit(&id);
+                        let closes = self.model.exit(m.stack, t, serial);
+                        let before = self.errors.len();
+                        self.check(&closes, None, None);
+                        if last {
+                            let mut kept = vec![];
+                            for (i, e) in std::mem::take(&mut self.errors).into_iter().enumerate() {
+                                if i >= before && e.1.contains("EXIT-AFTER-CLOSE") { self.f28 += 1; } else { kept.push(e); }
+                            }
+                            self.errors = kept;
+                        }
+                    }
+                    while GUARDS.with(|g| g.borrow().len()) > g0 {
+                        let (g, serial) = GUARDS.with(|gs| gs.borrow_mut().pop()).unwrap();
+                        self.trace.push(format!("[w{t}] drop(guard) [serial {serial:?}] (end of block)"));
+                        drop(g);
+                        let mut closes = vec![];
+                        if let Some(s) = serial {
+                            let st = self.model.spans[&s].stack;
+                            closes.extend(self.model.exit(st, t, s));
+                            closes.extend(self.model.drop_handle(s));
+                        }
+                        self.check(&closes, None, None);
+                    }
+                    self.stat("nested_registry_blocks");
+                }
+                self.block_base.pop();
                 let g = DEFAULTS.with(|d| d.borrow_mut().pop());
                 drop(g);
                 self.trace.push(format!("[w{t}] }} // end default"));
@@ -938,7 +988,7 @@ impl World {
                 self.check(&[], None, None);
             }
             15 => {
-                let k = self.rng.usize(nraw);
+                let k = *self.rng.pick(&raw_idx);
                 let (id, d, serial) = RAW.with(|r| r.borrow_mut().remove(k));
                 let m = self.model.spans[&serial].clone();
                 let last = m.handles == 0 && m.entered == 1 && m.children == 0
@@ -1069,7 +1119,8 @@ impl World {
         for i in 0..self.traces.len() {
             if let Some((tr, s)) = self.traces[i].take() {
                 self.trace.push(format!("drop(tr{i}) (end of history)"));
-                if let Some(s) = s { if self.model.spans[&s].parent.is_some() && dflt != Some(self.model.spans[&s].stack) { self.tainted = true; } }
+                let _own = if self.w.own_only { s.map(|s| dispatch::set_default(&self.disp[self.model.spans[&s].stack])) } else { None };
+                if let Some(s) = s { if self.model.spans[&s].parent.is_some() && dflt != Some(self.model.spans[&s].stack) && _own.is_none() { self.tainted = true; } }
                 drop(tr);
                 let closes = s.map(|s| self.model.drop_handle(s)).unwrap_or_default();
                 self.check(&closes, None, None);
@@ -1082,7 +1133,8 @@ impl World {
             if !self.errors.is_empty() { break; }
             let x = self.handles[i].take().unwrap();
             self.trace.push(format!("drop(h{i}) [serial {:?}] (end of history)", x.serial));
-            if let Some(s) = x.serial { if self.model.spans[&s].parent.is_some() && dflt != Some(self.model.spans[&s].stack) { self.tainted = true; } }
+            let _own = if self.w.own_only { x.serial.map(|s| dispatch::set_default(&self.disp[self.model.spans[&s].stack])) } else { None };
+            if let Some(s) = x.serial { if self.model.spans[&s].parent.is_some() && dflt != Some(self.model.spans[&s].stack) && _own.is_none() { self.tainted = true; } }
             drop(x.span);
             let closes = x.serial.map(|s| self.model.drop_handle(s)).unwrap_or_default();
             self.check(&closes, None, None);
@@ -1130,6 +1182,7 @@ pub fn run_history(seed: u64, idx: u64, fresh: Arc<Fresh>, w: Weights, max_ops: 
         w,
         nthreads,
         xparent_of_op: None,
+        block_base: vec![],
     }));
     let workers = vlib::exec::Workers::new(nthreads);
     for t in 0..nthreads {
